@@ -93,11 +93,21 @@ def iso_from_ms(ms: int) -> str:
 # ---------------------------------------------------------------------------
 
 _EMB = DeterministicEmbeddingAdapter(dim=32)
+_WORLD_DIM = [32]
+
+
+def set_world_dim(dim: int) -> int:
+    """The memory contents of a world are embedded at the configured surface dimension (k_surface); default 32."""
+    global _EMB
+    prev = _WORLD_DIM[0]
+    _WORLD_DIM[0] = int(dim)
+    _EMB = DeterministicEmbeddingAdapter(dim=int(dim))
+    return prev
 
 
 def episode_vec(spec: Any, text: str, by_id: Optional[Dict[str, Any]] = None):
     if spec == "zero":
-        return np.zeros((32,), dtype=np.float32)
+        return np.zeros((_WORLD_DIM[0],), dtype=np.float32)
     if isinstance(spec, str) and spec.startswith("text:"):
         return _EMB.encode([spec[5:]])[0]
     if spec is None or spec == "none":
